@@ -9,23 +9,33 @@ def ctor_field_roles(ctx, fn, adt, param_roles, extra=None):
     """analyse constructor `fn`: every aggregate of `adt` built there; returns
     {field index: role} where an operand that is (canonically) parameter j gets
     param_roles[j]; `extra(canon_term)` may name other operands."""
-    se = ctx.wrap.run(fn)
+    se = ctx.api.run(fn)
     if se is None:
         return None
     roles = {}
     found = False
-    for (bb, si), (loc, v) in se.assigns.items():
-        if v[0] == "agg" and v[1] == "adt" and v[2] == adt:
-            found = True
-            for i, op in enumerate(v[4]):
-                c = util.canon(ctx, se, op)
-                r = None
-                if c[0] == "param" and c[1] in param_roles:
-                    r = param_roles[c[1]]
-                elif extra:
-                    r = extra(c)
-                if r is not None:
-                    roles[i] = r
+    aggs = [v for (bb, si), (loc, v) in se.assigns.items() if v[0] == "agg" and v[1] == "adt" and v[2] == adt]
+    # aggregates built inside inlined private helpers show up in the result term
+    from symex import walk as _walk
+
+    terms = [se.ret] if se.ret is not None else []
+    if se.ret is not None and se.ret[0] == "phi":
+        terms += list(se.phi_inputs.get((se.ret[2], se.ret[3]), {}).values())
+    for t in terms:
+        for x in _walk(t):
+            if x[0] == "agg" and x[1] == "adt" and x[2] == adt and x not in aggs:
+                aggs.append(x)
+    for v in aggs:
+        found = True
+        for i, op in enumerate(v[4]):
+            c = util.canon(ctx, se, op)
+            r = None
+            if c[0] == "param" and c[1] in param_roles:
+                r = param_roles[c[1]]
+            elif extra:
+                r = extra(c)
+            if r is not None:
+                roles[i] = r
     return roles if found else None
 
 
